@@ -127,30 +127,34 @@ Fixpoint dec_fuel (f : nat) (n : N) : str :=
 Definition dec (n : N) : str := dec_fuel (S (N.size_nat n)) n.
 
 (* ---- EndpointsEmitter._deduplicate_operation_ids_globally (mutates op.operation_id in place) ----
-     seen_methods = {}
+   as coded since the fix of F07a:
+     used_methods = set()
      for op in operations:
          method_name = sanitize_method_name(op.operation_id)
-         if method_name in seen_methods:
-             seen_methods[method_name] += 1
-             op.operation_id = f"{op.operation_id}_{seen_methods[method_name]}"
-         else: seen_methods[method_name] = 1 *)
+         if method_name in used_methods:
+             suffix = 2
+             while sanitize_method_name(f"{op.operation_id}_{suffix}") in used_methods: suffix += 1
+             op.operation_id = f"{op.operation_id}_{suffix}"
+             method_name = sanitize_method_name(op.operation_id)
+         used_methods.add(method_name)
+   The while loop is given fuel |used|+1 (enough whenever the suffixed candidates have distinct method names;
+   with a sanitiser that maps all of them to one used name the real loop does not terminate either). *)
 Section Dedup.
   Variable san : str -> str.
-  Fixpoint count_get (k : str) (d : list (str * N)) : option N :=
-    match d with [] => None | (k', v) :: r => if str_eqb k k' then Some v else count_get k r end.
-  Fixpoint count_set (k : str) (v : N) (d : list (str * N)) : list (str * N) :=
-    match d with
-    | [] => [(k, v)]
-    | (k', v') :: r => if str_eqb k k' then (k', v) :: r else (k', v') :: count_set k v r
+  Definition with_suffix (i : str) (k : N) : str := i ++ [95] ++ dec k.
+  Fixpoint free_suffix (fuel : nat) (i : str) (k : N) (used : list str) : N :=
+    match fuel with
+    | O => k
+    | S f => if mem_str (san (with_suffix i k)) used then free_suffix f i (k + 1) used else k
     end.
-  Fixpoint dedup_go (seen : list (str * N)) (ids : list str) : list str :=
+  Fixpoint dedup_go (used : list str) (ids : list str) : list str :=
     match ids with
     | [] => []
     | i :: r =>
-        match count_get (san i) seen with
-        | Some n => (i ++ [95] ++ dec (n + 1)) :: dedup_go (count_set (san i) (n + 1) seen) r
-        | None => i :: dedup_go (count_set (san i) 1 seen) r
-        end
+        if mem_str (san i) used then
+          let i' := with_suffix i (free_suffix (S (length used)) i 2 used) in
+          i' :: dedup_go (san i' :: used) r
+        else i :: dedup_go (san i :: used) r
     end.
   Definition dedup_ops (ids : list str) : list str := dedup_go [] ids.
 End Dedup.
@@ -245,7 +249,8 @@ Section Modes.
 
   (* force / first-run path: out_dir is removed first (with the registry when the core lives inside it);
      EndpointsEmitter.emit runs TWICE on the same IR objects (the second call sits in the f-string of a
-     progress message), the mocks emitter then sees the twice de-duplicated ids; the rich __init__.py is
+     progress message), the mocks emitter then sees the twice de-duplicated ids (harmless since the fix of
+     F07a: the pass is the identity on its own collision-free output); the rich __init__.py is
      written last when core_package was given. *)
   Definition tree_force (g : gen_input) (found : registry) : atree :=
     let found' := if core_inside_out g then [] else found in
@@ -286,12 +291,13 @@ Section Modes.
     | [(k, _)] => str_eqb k (g_client g)
     | _ => false
     end.
-  (* no two operations share a method name (then de-duplication changes nothing, in particular it is idempotent) *)
   Fixpoint nodupb (l : list str) : bool :=
     match l with [] => true | x :: r => negb (mem_str x r) && nodupb r end.
-  Definition guard_F09e (g : gen_input) : bool := nodupb (map san (map snd (g_ops g))).
+  (* the de-duplication pass produced distinct method names — what the real loop guarantees whenever it
+     terminates; in the model this can only fail when the suffix search runs out of fuel (not a finding) *)
+  Definition dedup_total (g : gen_input) : bool := nodupb (map san (dedup_ops san (map snd (g_ops g)))).
   Definition guard_modes (g : gen_input) (found : registry) : bool :=
-    guard_F09c g && guard_F09d g found && guard_F09e g.
+    guard_F09c g && guard_F09d g found.
   (* layout sanity (not a finding): no two emitted files share a path — false e.g. when core_package equals
      the output package, where the two __init__.py are one file and the list model is not exact *)
   Definition wf_layout (g : gen_input) : bool := wf_tree (tree_temp g).
